@@ -7,7 +7,7 @@ import random
 from vf.core.result import Res
 from vf.gen.ir import E, source, walk
 from vf.gen.programs import Gen
-from vf.gen.twins import local_definitions, rename_local
+from vf.gen.twins import early_names, local_definitions, rename_local
 from vf.progcheck import Accept, Reject, Unspec, blocks_equal, model_of, run_ir
 
 LEVEL = "exploration"
@@ -44,7 +44,8 @@ def lab(n):
 def directed(rng: random.Random) -> dict:
     body: list = [{"k": "org", "e": E(rng.choice([0x8000, 0x018000, 0xC08000 if False else 0x028123]))}]
     kind = rng.choice(["shadow_chain", "sibling_reuse", "qualified_forward", "qualified_backward", "leak_inner", "leak_sibling", "leak_macro",
-                       "leak_loop", "symbol_kinds", "named_in_named", "macro_local_vs_outer", "shadow_unsized", "block_if_label"])
+                       "leak_loop", "symbol_kinds", "named_in_named", "macro_local_vs_outer", "shadow_unsized", "block_if_label", "named_in_loop", "named_in_macro",
+                       "const_shadowed_by_later_inner", "symbol_kinds_unsized"])
     expect_reject = False
     nop = {"k": "ins", "m": "nop", "shape": "imp", "sz": "", "e": None}
     if kind == "shadow_chain":
@@ -73,6 +74,34 @@ def directed(rng: random.Random) -> dict:
         for i in range(rng.randint(2, 3)):
             body.append({"k": "block", "b": [{"k": "if", "c": E(1), "t": [lab("wait1"), nop, {"k": "ins", "m": "bne", "shape": "rel", "sz": "", "e": E("wait1")}, dl("wait1")]}]})
         body += [lab("wait1"), {"k": "block", "b": [{"k": "if", "c": E(0), "t": [nop], "e": [lab("wait1"), nop, dl("wait1")]}]}, dl("wait1")]
+    elif kind == "named_in_loop":
+        n = rng.randint(2, 4)
+        body += [{"k": "for", "v": "itN", "a": E(0), "b": E(n), "body": [
+            {"k": "data", "d": "dw", "es": [E("entry.data")]},
+            {"k": "scope", "n": "entry", "b": [{"k": "data", "d": "db", "es": [E("itN")]}, lab("data"), {"k": "data", "d": "db", "es": [E(0x10, "+", "itN")]},
+                                               {"k": "assign", "n": "kk", "e": E("itN", "*", 3)}]},
+            {"k": "data", "d": "dw", "es": [E("entry.data")]}, {"k": "data", "d": "db", "es": [E("entry.kk")]}]}]
+        if rng.random() < 0.5:
+            body += [{"k": "scope", "n": "entry", "b": [lab("data"), nop]}, dl("entry.data")]
+    elif kind == "named_in_macro":
+        body += [{"k": "macro", "n": "macN", "ps": ["pa"], "b": [{"k": "scope", "n": "inner", "b": [lab("here"), {"k": "data", "d": "db", "es": [E("pa")]}]},
+                                                                  dl("inner.here")]},
+                 {"k": "call", "n": "macN", "as": [E(1)]}, {"k": "call", "n": "macN", "as": [E(2)]},
+                 {"k": "block", "b": [{"k": "call", "n": "macN", "as": [E(3)]}]}]
+    elif kind == "const_shadowed_by_later_inner":
+        # a constant known at expansion time is shadowed by an inner definition that comes after the reference
+        inner_def = rng.choice([lab("xx"), {"k": "sym", "n": "xx", "e": E(0x77)}])
+        wrap = rng.choice(["block", "scope"])
+        inner = [{"k": "data", "d": "db", "es": [E("xx", "&", 0xFF)]}, dl("xx"), inner_def, nop, dl("xx")]
+        body += [{"k": "assign", "n": "xx", "e": E(5)}, dl("xx"), {"k": "block", "b": inner} if wrap == "block" else {"k": "scope", "n": "nsx", "b": inner}, dl("xx")]
+        if wrap == "scope":
+            body += [dl("nsx.xx")]
+    elif kind == "symbol_kinds_unsized":
+        ref = lambda n: {"k": "ins", "m": "lda", "shape": "imm", "sz": "", "e": E(n)}  # noqa: E731
+        body += [{"k": "assign", "n": "kk", "e": E(1)}, {"k": "sym", "n": "ss", "e": E(0x10)}, ref("kk"),
+                 {"k": "block", "b": [{"k": "sym", "n": "kk", "e": E(7)}, ref("kk"), {"k": "data", "d": "db", "es": [E("kk")]},
+                                      {"k": "block", "b": [ref("kk"), {"k": "assign", "n": "kk", "e": E(9)}, ref("kk")]}, ref("kk")]},
+                 ref("kk"), {"k": "data", "d": "db", "es": [E("kk"), E("ss")]}]
     elif kind == "sibling_reuse":
         for i in range(rng.randint(2, 4)):
             body.append({"k": "block", "b": [dl("loop1"), lab("loop1"), nop, dl("loop1"), {"k": "block", "b": [dl("loop1")]}]})
@@ -144,31 +173,6 @@ def names_in_macro_bodies(prog: list) -> set[str]:
     return out
 
 
-def early_names(prog: list) -> set[str]:
-    """Names used where evaluation happens before all labels exist (width inference, *=, @=, :=, .if, .for bounds,
-    macro arguments): a forward reference is not allowed there, so renaming is not judged on them."""
-    out: set[str] = set()
-
-    def names(e):
-        return {t[1] for t in e if t[0] == "sym"}
-
-    for st, _, _ in walk(prog):
-        k = st["k"]
-        if k == "ins" and st.get("e") is not None and not st["sz"] and st["shape"] != "rel":
-            out |= names(st["e"])
-        elif k in ("org", "reloc", "assign"):
-            out |= names(st["e"])
-        elif k == "if":
-            out |= names(st["c"])
-        elif k == "for":
-            out |= names(st["a"]) | names(st["b"])
-        elif k == "call":
-            for a in st["as"]:
-                if isinstance(a, list):
-                    out |= names(a)
-    return out
-
-
 def insert_unrelated(prog: list, rng: random.Random) -> tuple[list, str] | None:
     """Adds one definition of a fresh name inside some nested scope."""
     prog = copy.deepcopy(prog)
@@ -219,7 +223,9 @@ def check_program(res: Res, p: dict, rng: random.Random) -> None:
         return
     # twin 1: consistent renaming of a scope-local name
     shared = names_in_macro_bodies(p["prog"]) | early_names(p["prog"])
-    cands = [(s, n) for s, n in local_definitions(p["prog"]) if n not in shared]
+    scope_names = [st["n"] for st, _, _ in walk(p["prog"]) if st["k"] == "scope"]
+    # ns.name references are renamed program-wide, which is only meaningful when the scope name is unique
+    cands = [(s, n) for s, n in local_definitions(p["prog"]) if n not in shared and not (s["k"] == "scope" and scope_names.count(s["n"]) > 1)]
     if cands:
         s, n = rng.choice(cands)
         twin = rename_local(p["prog"], s, n, n + "_rn")
